@@ -23,7 +23,7 @@ def configs(tier, seed):
         ),
         "wide": (treeexp.make_cfg("wide", seed, "wide", req=True, max_containers=3), 2 if q else 3),
         "narrow-bad": (treeexp.make_cfg("narrow-bad", seed, "narrow", copies=False, moves=False, max_containers=2, bad=True), 3 if q else 4),
-        "deep": (treeexp.make_cfg("deep", seed, "deep", moves=False, max_containers=2), 4 if q else 5),
+        "deep": (treeexp.make_cfg("deep", seed, "deep", moves=False, max_containers=2), 3 if q else 5),
         "narrow4": (
             treeexp.make_cfg("narrow4", seed, "narrow", copies=False, moves=False, max_containers=4, attr_keys=1),
             4 if q else 6,
